@@ -6,11 +6,11 @@
 package main
 
 import (
-	"runtime"
 	"bufio"
 	"encoding/json"
 	"fmt"
 	"os"
+	"runtime"
 	"syscall"
 )
 
